@@ -78,6 +78,7 @@ class Cmd:
         self.attrs = dict(attrs)   # allow-missing-inputs, always-out-of-date, allow-modified-outputs, can-safely-interrupt, signature, description, working-directory
         self.contents = None   # symlink
         self.sleep_ms = 0
+        self.link_outs = False  # the helper makes every output a symbolic link to <output>.real
         self.extra = {}        # raw extra attributes
         self.raw_args = None   # if set, the exact command line (signature-only experiments; such commands are never executed)
         self.extra_args = []   # appended to the command line; ignored by the helper (signature-only differences)
@@ -139,6 +140,8 @@ class Desc:
                     d["deps-style"] = c.deps_style or "makefile"
                 if c.sleep_ms:
                     args += ["--sleep-ms", str(c.sleep_ms)]
+                if c.link_outs:
+                    args += ["--link-outs"]
                 args += list(c.extra_args)
                 d["args"] = list(c.raw_args) if c.raw_args is not None else args
                 if c.env:
@@ -412,6 +415,7 @@ def gen_desc(rnd, ncmds=None, tools=("shell", "shell", "shell", "shell", "phony"
             if virtuals and rnd.random() < virtual_out_p:
                 c.outputs.append("<v%d>" % i)
             c.salt = "s%d" % rnd.randint(0, 3)
+            c.link_outs = rnd.random() < 0.15
             c.attrs["description"] = "RUN " + name
             avail_files += [o for o in c.outputs if not is_virtual(o)]
             avail_virtual += [o for o in c.outputs if is_virtual(o)]
